@@ -9,7 +9,9 @@
 2. Every explored sequence is exported; longer ones (3..6 fields over 10 numbers) come
    from TLC simulation.  The harness encodes them with protowire and calls the real
    ExtractSessionPrincipalWire (unknown-field region, and through proto.Unmarshal), then
-   does the same with seeded random field sequences mutated at byte level.
+   does the same with seeded random field sequences mutated at byte level, and with long
+   proposals: 70 / 200 / 1000 filler fields (non-principal, or repeated principal scalars)
+   followed by an exported sequence, so that the interesting fields come last.
 3. TLC re-reads every recorded input from its bytes (Parse in Principal.tla) and accepts
    the recorded result only if it equals ExtractD of that reading.
 """
@@ -40,14 +42,20 @@ def sig(rec):
     """input class of a record, used as the finding key"""
     if "fields" in rec:
         parts = []
-        for f in rec["fields"]:
+        fields = rec["fields"]
+        head = ""
+        if rec.get("src", "").startswith("long:"):  # filler fields in front: name their count and the tail only
+            k = int(rec["src"][5:])
+            head = "%d filler," % k
+            fields = fields[k:]
+        for f in fields:
             s = "%d/%d" % (f["num"], f["wt"])
             if f["wt"] == 2:
                 s += ":%d" % f["v"]["n"]
             elif f["wt"] == 9:
                 s += ":%d" % f["v"][0]
             parts.append(s)
-        return "vec[" + ",".join(parts) + "]"
+        return ("long[" + head if head else "vec[") + ",".join(parts) + "]"
     return "bytes[%s]" % rec.get("src", "?")
 
 
@@ -112,13 +120,14 @@ def run(ctx):
                 "ones) plus byte-level mutated random sequences; every one carries at least one field",
         "exhaustive_vectors": n_ex,
         "simulated_vectors": len(longv),
+        "long_sequences_filler_then_vector": st["long_sequences"],
         "random_sequences": st["random"],
         "mutated": st["mutated"],
         "outcomes": outc,
         "records_judged_from_abstract_fields_only": st["records_without_raw"],
         "exhaustive": False,
     }
-    if not outc.get("ok") or not outc.get("nil") or not outc.get("err"):
+    if not st["long_sequences"] or not outc.get("ok") or not outc.get("nil") or not outc.get("err"):
         raise vlib.ToolError("outcome classes not all exercised: %s" % outc)
     return ctx.finish("model_checking", cov, [
         "the harness encoder (protowire) is cross-checked against the spec's Parse on every record that carries both",
